@@ -27,6 +27,10 @@ class Unknowable(Exception):
     """exact interpretation met something it cannot decide"""
 
 
+class Raised(Exception):
+    """the interpreted code (or a modelled callable) raises: propagates to the outermost call(), which reports ("raise", None)"""
+
+
 def _assigned_names(nodes):
     out = set()
     for n in nodes:
@@ -104,7 +108,7 @@ class Interp:
             raise _Stop()
         try:
             return self._ev(e)
-        except (_Stop, RecursionError):
+        except (_Stop, RecursionError, Raised):
             raise
         except Exception:
             return UNKNOWN
@@ -353,7 +357,7 @@ class Interp:
                     return U
                 if r[0] == "raise":
                     if self.exact:
-                        raise Unknowable(f"{fn}() raises")
+                        raise Raised(fn)
                     return U
                 return r[1]
             if fn in MODELS:
@@ -420,6 +424,12 @@ class Interp:
                 return any(n_ in args[0]["__cls__"] for n_ in names_)
             if fn == "iter" and len(args) == 1 and isinstance(args[0], (list, tuple, dict, set)):
                 return Gen(list(args[0]))
+            if fn == "isinstance" and len(e.args) == 2 and args and not isinstance(args[0], (NS, Obj, Tok, _Unknown)):
+                # a plain constant: an instance of the builtin types only
+                c = e.args[1]
+                names_ = [x.id if isinstance(x, ast.Name) else getattr(x, "attr", None) for x in (c.elts if isinstance(c, ast.Tuple) else [c])]
+                bt = {"str": str, "int": int, "float": float, "bool": bool, "list": list, "tuple": tuple, "dict": dict, "set": set}
+                return any(n_ in bt and isinstance(args[0], bt[n_]) for n_ in names_)
             if fn == "next" and args and isinstance(args[0], Gen):
                 if args[0]:
                     return args[0].pop(0)
@@ -643,6 +653,14 @@ class Interp:
             else:
                 self._poison([t])
         elif isinstance(t, ast.Subscript):
+            cont = self.ev(t.value)            # self.table[k] = v: the container is an attribute of a model object
+            k = self.ev(t.slice) if not isinstance(t.slice, ast.Slice) else UNKNOWN
+            if isinstance(cont, (dict, list)) and k is not UNKNOWN and v is not UNKNOWN:
+                try:
+                    cont[k] = v
+                    return
+                except Exception:
+                    pass
             self._poison([t])
 
 
@@ -715,8 +733,32 @@ def call(fn, args, consts=None, funcs=None, budget=None):
         it.run(fn.body)
     except (_Stop, RecursionError):
         raise Unknowable("interpreter limit")
+    except Raised:
+        if budget is not None:
+            budget.steps = it.steps
+        return ("raise", None)
     if budget is not None:
         budget.steps = it.steps
     if is_gen:
         return ("return", Gen(it.yields))
     return it.result if it.result is not None else ("return", None)
+
+
+def bind(me, cdef, names, consts=None, funcs=None):
+    """Give the model object `me` (an NS standing for `self`) the methods `names` of class node `cdef`: each becomes a modelled
+    callable that interprets the repository's own method body on `me` (exactly); a raise inside propagates as Raised."""
+    meths = {f.name: f for f in cdef.body if isinstance(f, ast.FunctionDef)}
+    for nm in names:
+        fdef = meths[nm]
+        params = [a.arg for a in fdef.args.posonlyargs + fdef.args.args][1:]
+
+        def m(*a, _f=fdef, _p=params, **kw):
+            args = {"self": me}
+            args.update(dict(zip(_p, a)))
+            args.update(kw)
+            r = call(_f, args, consts=consts, funcs=funcs)
+            if r[0] == "raise":
+                raise Raised(_f.name)
+            return r[1]
+        me[nm] = Native(m)
+    return me
